@@ -58,6 +58,25 @@ m("M02h_prev_from_first", ["C02"], [
 m("M02i_invalid_kept", ["C02"], [
     ("pdf/src/xref.rs", "XRef::Invalid => true,", "XRef::Invalid => entry.get_gen_nr() > 0,")], expect="C02-TABLE")
 
+# ------------------------------------------------------------------ C18
+m("M18a_no_shared", ["C18"], [("pdf/src/error.rs", "            PdfError::Shared { ref source } => source.is_missing_object(),\n", "")],
+  expect="C18-ERR", note="errors that went through the object cache are no longer recognised")
+m("M18b_options_first", ["C18"], [("pdf/src/object/mod.rs",
+   "                Err(e) if e.is_missing_object() => Ok(None),\n                Err(e) if resolve.options().allow_error_in_option => {",
+   "                Err(e) if !resolve.options().allow_error_in_option && !matches!(e, PdfError::NullRef {..}) => Err(e),\n                Err(e) if e.is_missing_object() => Ok(None),\n                Err(e) if resolve.options().allow_error_in_option => {")],
+  expect="C18-ERR", note="strict mode fails before the missing-object test")
+m("M18c_absent_missing", ["C18"], [("pdf_derive/src/lib.rs",
+   "                        None =>  // Try to construct T from Primitive::Null\n                            match <#ty as pdf::object::Object>::from_primitive(pdf::primitive::Primitive::Null, resolve) {\n                                Ok(obj) => obj,\n                                Err(_) => return Err(pdf::error::PdfError::MissingEntry {\n                                    typ: #typ,\n                                    field: String::from(stringify!(#name)),\n                                })\n                            },",
+   "                        None => return Err(pdf::error::PdfError::MissingEntry {\n                                    typ: #typ,\n                                    field: String::from(stringify!(#name)),\n                                }),")],
+  expect="C18-ABSENT", note="(does not pass the baseline: kept only as extractor regression)")
+m("M18d_unspecified", ["C18"], [("pdf/src/error.rs", "PdfError::NullRef { .. } | PdfError::FreeObject { .. } | PdfError::UnspecifiedXRefEntry { .. } => true,",
+   "PdfError::NullRef { .. } | PdfError::FreeObject { .. } => true,")], expect="C18-ERR", note="object number beyond /Size")
+m("M18e_vec_null", ["C18"], [("pdf/src/object/mod.rs", "            Primitive::Null => {\n                Vec::new()\n            }\n            Primitive::Reference(id) => Self::from_primitive(r.resolve(id)?, r)?,\n            _ => vec![T::from_primitive(p, r)?]",
+   "            Primitive::Reference(id) => Self::from_primitive(r.resolve(id)?, r)?,\n            _ => vec![T::from_primitive(p, r)?]")], expect="C18-ABSENT")
+m("M18f_try_only_direct", ["C18"], [("pdf/src/error.rs", "PdfError::Try { ref source, .. } | PdfError::FromPrimitive { ref source, .. } => source.is_missing_object(),",
+   "PdfError::Try { ref source, .. } | PdfError::FromPrimitive { ref source, .. } => matches!(**source, PdfError::NullRef { .. } | PdfError::FreeObject { .. } | PdfError::UnspecifiedXRefEntry { .. }),")],
+  expect="C18-ERR", note="looks through one level of wrapping only; needs a doubly wrapped error (t! inside a derived reader)")
+
 
 def gen_patch(mu):
     files = {}
